@@ -1,6 +1,6 @@
 (* C16 / C17 / C18 for the CBOR parser model: how the parser treats its
    visitor, what state it is in after a complete value, and the pull decoder. *)
-From Coq Require Import List NArith ZArith Bool Lia.
+From Coq Require Import Setoid List NArith ZArith Bool Lia.
 From Coq Require Import ZifyBool ZifyNat ZifyN.
 From SF Require Import Base.Prelude Core.Events Cbor.Parse.
 Import ListNotations.
@@ -596,3 +596,913 @@ Print Assumptions C16_cbor_parse_prefix.
 Print Assumptions C16_cbor_run_parse_prompt.
 Print Assumptions C16_cbor_run_parse_fail_spec.
 Print Assumptions C16_cbor_run_parse_prefix.
+
+(* ====================================================================== *)
+(* Part 2: C17 - the state after a complete value.  An invariant relating *)
+(* the state stack and the length stack.                                  *)
+(* ====================================================================== *)
+
+Definition cfg (p : cparser) : list cstate := p_cur p :: p_stack p.
+
+Inductive kind :=
+| KV | KArr | KArrI | KMap | KMapI            (* a value may start here *)
+| KLeaf                                       (* number / float argument pending *)
+| KSeqX | KSeq                                (* byte / text string, before / after its first step *)
+| KKeyX | KKey | KElem                        (* map key, map element *)
+| KLen                                        (* length argument pending *)
+| KArrX | KArrIX | KMapX | KMapIX             (* container start event pending *)
+| KBad.
+
+Definition kind_of (m : Z) : kind :=
+  if m =? 2 then KV else if m =? 128 then KArr else if m =? 129 then KArrI
+  else if m =? 160 then KMap else if m =? 161 then KMapI
+  else if (m =? 0) || (m =? 32) || (m =? 250) || (m =? 251) then KLeaf
+  else if (m =? 68) || (m =? 100) then KSeqX else if (m =? 64) || (m =? 96) then KSeq
+  else if m =? 172 then KKeyX else if m =? 168 then KKey else if m =? 169 then KElem
+  else if m =? 3 then KLen
+  else if m =? 132 then KArrX else if m =? 133 then KArrIX
+  else if m =? 164 then KMapX else if m =? 165 then KMapIX else KBad.
+
+Definition isv (k : kind) : bool :=
+  match k with KV | KArr | KArrI | KMap | KMapI => true | _ => false end.
+
+(* a frame of kind [a] may sit directly on a frame of kind [b] *)
+Definition ok_on (a b : kind) : bool :=
+  match a with
+  | KLeaf | KSeqX | KSeq | KArr | KArrI | KMap | KMapI => isv b
+  | KKeyX | KKey | KElem => match b with KMap | KMapI => true | _ => false end
+  | KLen => match b with KSeqX | KKeyX | KArrX | KMapX => true | _ => false end
+  | KArrX => match b with KArr => true | _ => false end
+  | KArrIX => match b with KArrI => true | _ => false end
+  | KMapX => match b with KMap => true | _ => false end
+  | KMapIX => match b with KMapI => true | _ => false end
+  | KV | KBad => false
+  end.
+
+Definition kd (c : cstate) : kind := kind_of (c_major c).
+
+Fixpoint shape (l : list cstate) : Prop :=
+  match l with
+  | [] => False
+  | c :: r =>
+      match r with
+      | [] => c = mkst stValue stStart
+      | d :: _ => ok_on (kd c) (kd d) = true /\ shape r
+      end
+  end.
+
+(* how many entries of the length stack a frame owns; a pending KLen frame
+   (always on top) stands for the entry its parent does not have yet *)
+Definition own (k : kind) : Z :=
+  match k with
+  | KLen => -1
+  | KArr | KMap | KSeqX | KSeq | KKeyX | KKey => 1
+  | _ => 0
+  end.
+
+Fixpoint cnt (l : list cstate) : Z :=
+  match l with [] => 0 | c :: r => own (kd c) + cnt r end.
+
+Definition Inv (L0 : Z) (p : cparser) : Prop :=
+  shape (cfg p) /\ zlen (p_lstack p) = cnt (cfg p) /\ last (p_lstack p) (p_lcur p) = L0.
+
+Lemma last_cons : forall A (a : A) l d, last (a :: l) d = last l a.
+Proof. intros A a l. revert a. induction l as [|b l IH]; intros a d; [reflexivity|].
+  change (last (a :: b :: l) d) with (last (b :: l) d). rewrite IH. symmetry. apply IH. Qed.
+
+Lemma last_indep : forall A (l : list A) a b, 0 < zlen l -> last l a = last l b.
+Proof.
+  intros A l a b H. destruct l as [|x l]; [unfold zlen in H; cbn in H; lia|].
+  rewrite !last_cons. reflexivity.
+Qed.
+
+Lemma shape_cc : forall c d r, shape (c :: d :: r) <-> ok_on (kd c) (kd d) = true /\ shape (d :: r).
+Proof. intros. reflexivity. Qed.
+Lemma shape_1 : forall c, shape [c] <-> c = mkst stValue stStart.
+Proof. intros. reflexivity. Qed.
+
+Lemma cnt_tail_nonneg : forall r c, shape (c :: r) -> 0 <= cnt r.
+Proof.
+  induction r as [|d r IH]; intros c H; cbn [cnt]; [lia|].
+  apply shape_cc in H. destruct H as [Hok Hs]. specialize (IH _ Hs).
+  destruct (kd c), (kd d); cbn [own ok_on isv] in *; try discriminate; lia.
+Qed.
+
+Lemma shape_bottom : forall c r, shape (c :: r) -> kd c = KV -> r = [] /\ c = mkst stValue stStart.
+Proof.
+  intros c r H E. destruct r as [|d r]; [split; [reflexivity|exact H]|].
+  exfalso. apply shape_cc in H. destruct H as [Hok _]. rewrite E in Hok. discriminate.
+Qed.
+
+Lemma shape_pop : forall c r, shape (c :: r) -> kd c <> KV ->
+  exists d r', r = d :: r' /\ ok_on (kd c) (kd d) = true /\ shape (d :: r').
+Proof.
+  intros c r H E. destruct r as [|d r].
+  - exfalso. apply (proj1 (shape_1 c)) in H. rewrite H in E. apply E. reflexivity.
+  - exists d, r. apply shape_cc in H. destruct H. auto.
+Qed.
+Arguments shape : simpl never.
+
+Lemma kind_not_fail : forall m, kind_of m <> KBad -> (m =? stFail) = false.
+Proof.
+  intros m H. destruct (m =? stFail) eqn:E; [|reflexivity]. apply Z.eqb_eq in E. subst m.
+  exfalso. apply H. reflexivity.
+Qed.
+
+Ltac projs :=
+  unfold cfg, clear_startx, set_cur, set_buf, set_lcur, set_err, st_push, st_pop, len_push, len_pop, mkst in *;
+  cbn [p_cur p_stack p_lcur p_lstack p_buf p_err c_major c_minor] in *.
+
+Ltac kinds :=
+  repeat match goal with
+  | |- context [kind_of ?v] =>
+      progress (let k := eval vm_compute in (kind_of v) in
+                lazymatch k with
+                | context [match _ with _ => _ end] => fail
+                | _ => change (kind_of v) with k
+                end)
+  | H : context [kind_of ?v] |- _ =>
+      progress (let k := eval vm_compute in (kind_of v) in
+                lazymatch k with
+                | context [match _ with _ => _ end] => fail
+                | _ => change (kind_of v) with k in H
+                end)
+  end.
+
+Ltac kprep :=
+  projs; rewrite ?shape_cc in *; cbn [cnt] in *; unfold kd in *; cbn [c_major] in *;
+  repeat match goal with Hk : kind_of ?x = _ |- _ => rewrite Hk in * end;
+  kinds; cbn [own ok_on isv] in *; unfold zlen in *; cbn [length] in *.
+
+Ltac arith :=
+  kprep; repeat match goal with |- _ /\ _ => split end;
+  try assumption; try reflexivity; try discriminate; try lia.
+
+Lemma on_value_inv : forall L0 fuel p s p' s' d e,
+  Inv L0 p -> isv (kd (p_cur p)) = true ->
+  on_value fuel p s = Some (p', s', d, e) -> e = nilE ->
+  Inv L0 p' /\ (d = true -> kd (p_cur p') = KV).
+Proof.
+  induction fuel as [|f IH]; intros p s p' s' d e HI HV H He; [discriminate|].
+  cbn [on_value] in H. cbv zeta in H.
+  destruct ((c_major (p_cur p) =? mArr) || (c_major (p_cur p) =? mMap)) eqn:E1.
+  - destruct p as [cur stk lcur lstk buf err]. 
+    destruct HI as (HS & HC & HL). projs.
+    pose proof (cnt_tail_nonneg _ _ HS) as Hnn.
+    assert (Hown : own (kd cur) = 1).
+    { apply orb_true_iff in E1. unfold kd. destruct E1 as [E1|E1]; apply Z.eqb_eq in E1; rewrite E1; reflexivity. }
+    assert (Hnv : kd cur <> KV) by (intros E; rewrite E in Hown; discriminate).
+    destruct (lcur - 1 >? 0) eqn:E2.
+    + inversion H; subst p' s' d e. split; [|discriminate]. unfold Inv. projs.
+      split; [exact HS|]. split; [exact HC|]. rewrite <- HL. apply last_indep. cbn [cnt] in HC. lia.
+    + destruct (vis s (if c_major cur =? mArr then EArrEnd else EObjEnd)) as [s1 err1].
+      destruct (isnil err1) eqn:E3.
+      * destruct lstk as [|l lstk]; [exfalso; cbn [cnt] in HC; unfold zlen in HC; cbn [length] in HC; lia|].
+        destruct (shape_pop _ _ HS Hnv) as (c & stk' & -> & Hok & HS').
+        apply (IH _ _ _ _ _ _) in H; [exact H| | |exact He].
+        -- unfold Inv. projs. split; [exact HS'|]. split; [|rewrite last_cons in HL; exact HL].
+           cbn [cnt] in *. unfold zlen in *. cbn [length] in *. lia.
+        -- projs. destruct (kd cur); try discriminate; exact Hok.
+      * inversion H; subst. discriminate.
+  - destruct ((c_major (p_cur p) =? mArr + stIndef) || (c_major (p_cur p) =? mMap + stIndef)) eqn:E2;
+      inversion H; subst p' s' d e; (split; [exact HI|]); [discriminate|]. intros _.
+    unfold kd in *. remember (c_major (p_cur p)) as m eqn:Hm. clear - HV E1 E2.
+    unfold kind_of in *. unfold mArr, mMap, stIndef in *.
+    repeat match type of HV with context [if ?c then _ else _] => destruct c eqn:? end;
+      try discriminate; try reflexivity; lia.
+Qed.
+
+(* popState on a frame whose length entry (if any) has already been popped *)
+Lemma pop_state_inv : forall L0 p s p' s' d e,
+  shape (cfg p) -> ok_on (kd (p_cur p)) KV = true ->
+  zlen (p_lstack p) = cnt (p_stack p) -> last (p_lstack p) (p_lcur p) = L0 ->
+  pop_state p s = Some (p', s', d, e) -> e = nilE ->
+  Inv L0 p' /\ (d = true -> kd (p_cur p') = KV).
+Proof.
+  intros L0 p s p' s' d e HS HM HC HL H He. unfold pop_state in H. cbv zeta in H.
+  destruct p as [cur stk lcur lstk buf err]. projs.
+  assert (Hnv : kd cur <> KV) by (intros E; rewrite E in HM; discriminate).
+  destruct (shape_pop _ _ HS Hnv) as (c & stk' & -> & Hok & HS').
+  apply on_value_inv with (L0 := L0) in H; [exact H| | |exact He].
+  - unfold Inv. projs. auto.
+  - projs. destruct (kd cur); try discriminate; exact Hok.
+Qed.
+
+Ltac brk_in H :=
+  match type of H with
+  | context [match (if ?c then _ else _) with _ => _ end] => destruct c eqn:?; cbv beta iota in H
+  | context [match ?x with _ => _ end] => first [ is_var x; destruct x | destruct x eqn:? ]; cbv beta iota in H
+  end.
+
+Ltac kill_nil :=
+  match goal with
+  | E : isnil nilE = false |- _ => vm_compute in E; discriminate E
+  end.
+
+Lemma shape_retop : forall c c' stk,
+  shape (c :: stk) -> (forall b, ok_on (kd c) b = true -> ok_on (kd c') b = true) -> kd c <> KV ->
+  shape (c' :: stk).
+Proof.
+  intros c c' stk HS Hok Hnv. destruct (shape_pop _ _ HS Hnv) as (d & r & -> & H1 & H2).
+  apply shape_cc. split; [apply Hok; exact H1|exact H2].
+Qed.
+
+Ltac retop :=
+  match goal with
+  | HS : shape (?c :: ?stk) |- shape (_ :: ?stk) =>
+      apply (shape_retop c _ stk HS);
+      [ let bb := fresh "bb" in intros bb; unfold kd; cbn [c_major];
+        repeat match goal with Hk : kind_of ?x = _ |- _ => rewrite Hk end; kinds; exact (fun x => x)
+      | unfold kd; repeat match goal with Hk : kind_of ?x = _ |- _ => rewrite Hk end; discriminate ]
+  end.
+
+Ltac arith ::=
+  kprep; repeat match goal with |- _ /\ _ => split end;
+  try assumption; try reflexivity; try discriminate; try lia; try retop.
+
+Ltac inv_fin :=
+  unfold Inv; kprep; rewrite ?last_cons in *;
+  repeat match goal with |- _ /\ _ => split end;
+  try assumption; try reflexivity; try discriminate; try lia; try retop.
+
+Lemma on_value_inv1 : forall L0 fuel p s p' s' d,
+  Inv L0 p -> isv (kd (p_cur p)) = true ->
+  on_value fuel p s = Some (p', s', d, nilE) -> Inv L0 p'.
+Proof. intros L0 fuel p s p' s' d HI HV H. exact (proj1 (on_value_inv L0 fuel p s p' s' d nilE HI HV H eq_refl)). Qed.
+
+Lemma pop_state_inv1 : forall L0 p s p' s' d,
+  shape (cfg p) -> ok_on (kd (p_cur p)) KV = true ->
+  zlen (p_lstack p) = cnt (p_stack p) -> last (p_lstack p) (p_lcur p) = L0 ->
+  pop_state p s = Some (p', s', d, nilE) -> Inv L0 p'.
+Proof. intros L0 p s p' s' d H1 H2 H3 H4 H. exact (proj1 (pop_state_inv L0 p s p' s' d nilE H1 H2 H3 H4 H eq_refl)). Qed.
+
+Definition Post (L0 : Z) (p' : cparser) (d : bool) : Prop :=
+  Inv L0 p' /\ (d = true -> kd (p_cur p') = KV).
+
+Ltac fix_collect := idtac.
+Ltac leaf H := idtac.
+Ltac leaf H ::=
+  try discriminate H;
+  injection H as ? ? ? ? ?; subst;
+  try discriminate; try kill_nil; fix_collect;
+  unfold Post;
+  lazymatch goal with
+  | Hov : on_value _ _ _ = Some _ |- _ =>
+      eapply on_value_inv; [ | | exact Hov | reflexivity ]; [ inv_fin | arith ]
+  | Hps : pop_state _ _ = Some _ |- _ =>
+      eapply pop_state_inv; [ | | | | exact Hps | reflexivity ]; [ arith | arith | arith | inv_fin ]
+  | _ => split; [ inv_fin | try discriminate ]
+  end.
+
+Lemma isv_not_fail : forall c, isv (kd c) = true -> (c_major c =? stFail) = false.
+Proof. intros c H. apply kind_not_fail. unfold kd in H. intros E. rewrite E in H. discriminate. Qed.
+
+Lemma init_byte_seq_inv : forall L0 p s major minor b p' s' r d e,
+  Inv L0 p ->
+  ((major = 64 \/ major = 96) /\ isv (kd (p_cur p)) = true \/
+   major = 168 /\ ok_on KKey (kd (p_cur p)) = true) ->
+  init_byte_seq p s major minor b = SR p' s' r d e -> e = nilE -> Post L0 p' d.
+Proof.
+  intros L0 p s major minor b p' s' r d e (HS & HC & HL) HM H He.
+  destruct p as [cur stk lcur lstk buf err]. unfold init_byte_seq in H. projs.
+  assert (Hf : (c_major cur =? stFail) = false).
+  { apply kind_not_fail. fold (kd cur). intros E. rewrite E in HM. cbn in HM.
+    destruct HM as [[_ HM]|[_ HM]]; discriminate. }
+  rewrite Hf in H.
+  assert (Hf2 : (major + stStartX =? stFail) = false) by (unfold stStartX, stFail; lia).
+  rewrite ?Hf2 in H.
+  destruct HM as [[[-> | ->] HM]|[-> HM]]; repeat brk_in H; leaf H.
+Qed.
+
+Lemma init_sub_inv : forall L0 p s major minor b p' s' r d e,
+  Inv L0 p -> (major = 128 \/ major = 160) -> isv (kd (p_cur p)) = true ->
+  init_sub p s major minor b = SR p' s' r d e -> e = nilE -> Post L0 p' d.
+Proof.
+  intros L0 p s major minor b p' s' r d e (HS & HC & HL) HM HV H He.
+  destruct p as [cur stk lcur lstk buf err]. unfold init_sub in H. projs.
+  rewrite (isv_not_fail _ HV) in H.
+  destruct HM as [-> | ->]; vm_compute (_ =? stFail) in H; repeat brk_in H; leaf H.
+Qed.
+
+Lemma step_value_inv : forall L0 p s b p' s' r d e,
+  Inv L0 p -> isv (kd (p_cur p)) = true ->
+  step_value p s b = SR p' s' r d e -> e = nilE -> Post L0 p' d.
+Proof.
+  intros L0 p s b p' s' r d e HI HV H He.
+  unfold step_value in H. destruct b as [|b0 b]; [inversion H; subst; split; [exact HI|discriminate]|].
+  cbv zeta in H. remember (b0 / 32 * 32) as major eqn:Hmaj. remember (b0 mod 32) as minor eqn:Hmin.
+  clear Hmaj Hmin. unfold after_value in H.
+  destruct (major =? mUint) eqn:E0; [|destruct (major =? mNeg) eqn:E1].
+  1,2: destruct HI as (HS & HC & HL); destruct p as [cur stk lcur lstk buf err]; projs;
+    rewrite ?(isv_not_fail _ HV) in H; apply Z.eqb_eq in E0 || apply Z.eqb_eq in E1; subst major;
+    repeat brk_in H; leaf H.
+  destruct ((major =? mBytes) || (major =? mText)) eqn:E2.
+  { destruct (minor =? 31); [inversion H; subst; discriminate|].
+    eapply init_byte_seq_inv; [exact HI| |exact H|exact He]. left. split; [|exact HV].
+    unfold mBytes, mText in E2. lia. }
+  destruct ((major =? mArr) || (major =? mMap)) eqn:E3.
+  { eapply init_sub_inv; [exact HI| |exact HV|exact H|exact He]. unfold mArr, mMap in E3. lia. }
+  destruct (major =? mTag); [inversion H; subst; discriminate|].
+  destruct HI as (HS & HC & HL); destruct p as [cur stk lcur lstk buf err]; projs;
+    rewrite ?(isv_not_fail _ HV) in H.
+  destruct ((b0 =? 250) || (b0 =? 251)) eqn:EF.
+  - assert (Hk : kind_of b0 = KLeaf).
+    { apply orb_true_iff in EF. destruct EF as [EF|EF]; apply Z.eqb_eq in EF; subst b0; reflexivity. }
+    repeat brk_in H; leaf H.
+  - repeat brk_in H; leaf H.
+Qed.
+
+Lemma collect_fields : forall p b c p1 rest tmp,
+  collect p b c = CR p1 rest tmp ->
+  p_cur p1 = p_cur p /\ p_stack p1 = p_stack p /\ p_lcur p1 = p_lcur p /\ p_lstack p1 = p_lstack p.
+Proof.
+  intros p b c p1 rest tmp H. unfold collect in H.
+  repeat match goal with
+  | H : context [match ?x with _ => _ end] |- _ => first [ is_var x; destruct x | destruct x eqn:? ]
+  end;
+  repeat match goal with
+  | E : (_, _, _) = (_, _, _) |- _ => inversion E; subst; clear E
+  end;
+  inversion H; subst; repeat split; reflexivity.
+Qed.
+
+Ltac fix_collect ::=
+  repeat match goal with
+  | Hc : collect _ _ _ = CR ?p1 _ _ |- _ =>
+      apply collect_fields in Hc; destruct p1; projs; destruct Hc as (? & ? & ? & ?); subst
+  end;
+  repeat match goal with
+  | E : _ :: _ = _ :: _ |- _ => injection E as ? ?; subst
+  | E : _ :: _ = [] |- _ => discriminate E
+  | E : [] = _ :: _ |- _ => discriminate E
+  end.
+
+Ltac leaf H ::=
+  try discriminate H;
+  injection H as ? ? ? ? ?; subst;
+  try discriminate; try kill_nil; fix_collect;
+  unfold Post;
+  lazymatch goal with
+  | Hov : on_value _ _ _ = Some _ |- _ =>
+      eapply on_value_inv; [ | | exact Hov | reflexivity ]; [ inv_fin | arith ]
+  | Hps : pop_state _ _ = Some _ |- _ =>
+      eapply pop_state_inv; [ | | | | exact Hps | reflexivity ]; [ arith | arith | arith | inv_fin ]
+  | _ => split; [ inv_fin | try discriminate ]
+  end.
+
+Lemma step_num_inv : forall L0 neg p s b p' s' r d e,
+  Inv L0 p -> kd (p_cur p) = KLeaf ->
+  step_num neg p s b = SR p' s' r d e -> e = nilE -> Post L0 p' d.
+Proof.
+  intros L0 neg p s b p' s' r d e (HS & HC & HL) Hk H He.
+  destruct p as [cur stk lcur lstk buf err]. unfold step_num, get_uint, after_pop in H. projs.
+  repeat brk_in H; leaf H.
+Qed.
+
+Lemma step_float_inv : forall L0 w p s b p' s' r d e,
+  Inv L0 p -> kd (p_cur p) = KLeaf ->
+  step_float w p s b = SR p' s' r d e -> e = nilE -> Post L0 p' d.
+Proof.
+  intros L0 w p s b p' s' r d e (HS & HC & HL) Hk H He.
+  destruct p as [cur stk lcur lstk buf err]. unfold step_float, get_uint in H. projs.
+  repeat brk_in H; leaf H.
+Qed.
+
+Lemma step_len_inv : forall L0 p s b p' s' r d e,
+  Inv L0 p -> kd (p_cur p) = KLen ->
+  step_len p s b = SR p' s' r d e -> e = nilE -> Post L0 p' d.
+Proof.
+  intros L0 p s b p' s' r d e (HS & HC & HL) Hk H He.
+  destruct p as [cur stk lcur lstk buf err]. projs.
+  destruct (shape_pop _ _ HS ltac:(rewrite Hk; discriminate)) as (c & stk' & -> & Hok & HS').
+  unfold step_len, get_uint in H. projs.
+  repeat brk_in H; leaf H; try (destruct (kind_of (c_major c)); try discriminate; lia).
+Qed.
+
+Lemma emit_bytes_any : forall l s, exists s1 e, emit_bytes s l = (s1, e).
+Proof. intros. destruct (emit_bytes s l) as [s1 e]. eauto. Qed.
+
+Lemma step_bytes_inv : forall L0 p s b p' s' r d e,
+  Inv L0 p -> kd (p_cur p) = KSeq ->
+  step_bytes p s b = SR p' s' r d e -> e = nilE -> Post L0 p' d.
+Proof.
+  intros L0 p s b p' s' r d e (HS & HC & HL) Hk H He.
+  destruct p as [cur stk lcur lstk buf err]. unfold step_bytes in H. projs.
+  pose proof (cnt_tail_nonneg _ _ HS) as Hnn.
+  destruct lstk as [|l0 lstk]; [exfalso; kprep; lia|].
+  destruct (c_minor cur =? stStart).
+  - destruct (vis s (EArrStart lcur BByte)) as [s1 e1]. destruct (isnil e1) eqn:E1; cbn [negb] in H.
+    + projs. repeat brk_in H; leaf H; try (apply last_indep; lia).
+    + inversion H; subst. kill_nil.
+  - cbn [negb] in H. change (isnil nilE) with true in H. cbn [negb] in H. projs.
+    repeat brk_in H; leaf H; try (apply last_indep; lia).
+Qed.
+
+Ltac need_len HS lstk :=
+  let Hnn := fresh "Hnn" in
+  pose proof (cnt_tail_nonneg _ _ HS) as Hnn;
+  destruct lstk as [|? lstk]; [exfalso; kprep; lia|].
+
+Lemma step_text_inv : forall L0 p s b p' s' r d e,
+  Inv L0 p -> kd (p_cur p) = KSeq ->
+  step_text p s b = SR p' s' r d e -> e = nilE -> Post L0 p' d.
+Proof.
+  intros L0 p s b p' s' r d e (HS & HC & HL) Hk H He.
+  destruct p as [cur stk lcur lstk buf err]. unfold step_text in H. projs.
+  need_len HS lstk.
+  repeat brk_in H; leaf H.
+Qed.
+
+Lemma step_key_inv : forall L0 p s b p' s' r d e,
+  Inv L0 p -> kd (p_cur p) = KKey ->
+  step_key p s b = SR p' s' r d e -> e = nilE -> Post L0 p' d.
+Proof.
+  intros L0 p s b p' s' r d e (HS & HC & HL) Hk H He.
+  destruct p as [cur stk lcur lstk buf err]. unfold step_key in H. projs.
+  need_len HS lstk.
+  repeat brk_in H; leaf H.
+Qed.
+
+Lemma init_map_key_inv : forall L0 p s b p' s' r d e,
+  Inv L0 p -> ok_on KKey (kd (p_cur p)) = true ->
+  init_map_key p s b = SR p' s' r d e -> e = nilE -> Post L0 p' d.
+Proof.
+  intros L0 p s b p' s' r d e HI Hk H He. unfold init_map_key in H.
+  destruct b as [|b0 b]; [discriminate|].
+  destruct (negb (b0 / 32 * 32 =? mText)); [inversion H; subst; discriminate|].
+  destruct (b0 mod 32 =? 31); [inversion H; subst; discriminate|].
+  eapply init_byte_seq_inv; [exact HI| |exact H|exact He]. right. split; [reflexivity|exact Hk].
+Qed.
+
+Lemma step_array_inv : forall L0 p s b p' s' r d e,
+  Inv L0 p -> kd (p_cur p) = KArr ->
+  step_array p s b = SR p' s' r d e -> e = nilE -> Post L0 p' d.
+Proof.
+  intros L0 p s b p' s' r d e HI Hk H He. unfold step_array, handle_len in H.
+  destruct (p_lcur p >? 0).
+  - eapply step_value_inv; [exact HI|rewrite Hk; reflexivity|exact H|exact He].
+  - destruct HI as (HS & HC & HL). destruct p as [cur stk lcur lstk buf err]. projs.
+    need_len HS lstk.
+    destruct (vis s EArrEnd) as [s1 e1]. destruct (isnil e1) eqn:E1.
+    + destruct (pop_state _ s1) as [[[[p2 s2] d2] e2]|] eqn:Hps; leaf H.
+    + leaf H.
+Qed.
+
+Lemma step_map_inv : forall L0 p s b p' s' r d e,
+  Inv L0 p -> kd (p_cur p) = KMap ->
+  step_map p s b = SR p' s' r d e -> e = nilE -> Post L0 p' d.
+Proof.
+  intros L0 p s b p' s' r d e HI Hk H He. unfold step_map, handle_len in H.
+  destruct (p_lcur p >? 0).
+  - destruct (zlen b >? 0).
+    + eapply init_map_key_inv; [exact HI|rewrite Hk; reflexivity|exact H|exact He].
+    + inversion H; subst; split; [exact HI|discriminate].
+  - destruct HI as (HS & HC & HL). destruct p as [cur stk lcur lstk buf err]. projs.
+    need_len HS lstk.
+    destruct (vis s EObjEnd) as [s1 e1]. destruct (isnil e1) eqn:E1.
+    + destruct (pop_state _ s1) as [[[[p2 s2] d2] e2]|] eqn:Hps; leaf H.
+    + leaf H.
+Qed.
+
+Ltac getk E Hk :=
+  apply Z.eqb_eq in E;
+  pose proof (f_equal kind_of E) as Hk;
+  match type of Hk with
+  | _ = ?rhs => let k := eval vm_compute in rhs in change rhs with k in Hk
+  end.
+
+(* the inline branches of execStep: open the parser record and split cases *)
+Ltac inline_branch HI H E :=
+  let HS := fresh "HS" in let HC := fresh "HC" in let HL := fresh "HL" in
+  destruct HI as (HS & HC & HL);
+  match goal with p : cparser |- _ => destruct p as [cur stk lcur lstk buf err] end;
+  projs.
+
+Lemma st_pop_inv : forall L0 p,
+  Inv L0 p -> own (kd (p_cur p)) = 0 -> kd (p_cur p) <> KV ->
+  Inv L0 (st_pop p) /\ ok_on (kd (p_cur p)) (kd (p_cur (st_pop p))) = true.
+Proof.
+  intros L0 p (HS & HC & HL) Ho Hnv. destruct p as [cur stk lcur lstk buf err]. projs.
+  destruct (shape_pop _ _ HS Hnv) as (c & stk' & -> & Hok & HS').
+  split; [|exact Hok]. unfold Inv. projs. split; [exact HS'|]. split; [|exact HL].
+  cbn [cnt] in *. lia.
+Qed.
+
+Lemma pop_state_inv2 : forall L0 p s p' s' d,
+  Inv L0 p -> own (kd (p_cur p)) = 0 -> ok_on (kd (p_cur p)) KV = true ->
+  pop_state p s = Some (p', s', d, nilE) -> Post L0 p' d.
+Proof.
+  intros L0 p s p' s' d (HS & HC & HL) Ho Hok H.
+  eapply pop_state_inv; [exact HS|exact Hok| |exact HL|exact H|reflexivity].
+  unfold cfg in HC. cbn [cnt] in HC. lia.
+Qed.
+
+(* the common tail of the indefinite-length array / map states *)
+Lemma indef_tail_inv : forall L0 p1 s1 b ev w1 w2 (K : cparser -> sink -> bytes -> sres) p' s' r' d' e',
+  Inv L0 p1 -> (kd (p_cur p1) = KArrI \/ kd (p_cur p1) = KMapI) ->
+  (forall p'' s'' r'' d'' e'', K p1 s1 b = SR p'' s'' r'' d'' e'' -> e'' = nilE -> Post L0 p'' d'') ->
+  match b with
+  | [] => Crash w1
+  | b0 :: r =>
+      if b0 =? 255 then
+        let '(s2, err2) := vis s1 ev in
+        if isnil err2 then
+          match pop_state p1 s2 with
+          | Some (p2, s3, d, e) => SR p2 s3 r d e
+          | None => Crash w2
+          end
+        else SR p1 s2 r false err2
+      else K p1 s1 b
+  end = SR p' s' r' d' e' -> e' = nilE -> Post L0 p' d'.
+Proof.
+  intros L0 p1 s1 b ev w1 w2 K p' s' r' d' e' HI Hk HK H He.
+  destruct b as [|b0 r]; [discriminate|].
+  destruct (b0 =? 255); [|eapply HK; eauto].
+  destruct (vis s1 ev) as [s2 err2]. destruct (isnil err2) eqn:E2.
+  - destruct (pop_state p1 s2) as [[[[p2 s3] d] e]|] eqn:Hps; [|discriminate].
+    inversion H; subst. eapply pop_state_inv2; [exact HI| | |exact Hps];
+      destruct Hk as [Hk|Hk]; rewrite Hk; reflexivity.
+  - inversion H; subst. kill_nil.
+Qed.
+
+Lemma exec_step_inv : forall L0 p s b p' s' r d e,
+  Inv L0 p -> exec_step p s b = SR p' s' r d e -> e = nilE -> Post L0 p' d.
+Proof.
+  intros L0 p s b p' s' r d e HI H He. unfold exec_step in H. cbv zeta in H.
+  destruct (c_major (p_cur p) =? stFail) eqn:E. { inversion H; subst; split; [exact HI|discriminate]. } clear E.
+  destruct (c_major (p_cur p) =? stValue) eqn:E.
+  { getk E Hk. eapply step_value_inv; [exact HI|unfold kd; rewrite Hk; reflexivity|exact H|exact He]. } clear E.
+  destruct (c_major (p_cur p) =? stLen) eqn:E.
+  { getk E Hk. eapply step_len_inv; [exact HI|exact Hk|exact H|exact He]. } clear E.
+  destruct (c_major (p_cur p) =? mUint) eqn:E.
+  { getk E Hk. eapply step_num_inv; [exact HI|exact Hk|exact H|exact He]. } clear E.
+  destruct (c_major (p_cur p) =? mNeg) eqn:E.
+  { getk E Hk. eapply step_num_inv; [exact HI|exact Hk|exact H|exact He]. } clear E.
+  destruct (c_major (p_cur p) =? 250) eqn:E.
+  { getk E Hk. eapply step_float_inv; [exact HI|exact Hk|exact H|exact He]. } clear E.
+  destruct (c_major (p_cur p) =? 251) eqn:E.
+  { getk E Hk. eapply step_float_inv; [exact HI|exact Hk|exact H|exact He]. } clear E.
+  destruct (c_major (p_cur p) =? mBytes + stStartX) eqn:E.
+  { getk E Hk. destruct (p_lcur p =? 0).
+    - destruct HI as (HS & HC & HL). destruct p as [cur stk lcur lstk buf err]. projs.
+      need_len HS lstk. repeat brk_in H; leaf H.
+    - assert (HI' : Inv L0 (clear_startx p)).
+      { destruct HI as (HS & HC & HL). destruct p as [cur stk lcur lstk buf err]. projs.
+        assert (Hk2 : kind_of (c_major cur - stStartX) = KSeq) by (rewrite E; reflexivity).
+        inv_fin. }
+      assert (Hk' : kd (p_cur (clear_startx p)) = KSeq).
+      { destruct p as [cur stk lcur lstk buf err]. projs. unfold kd. cbn [c_major]. rewrite E. reflexivity. }
+      destruct (zlen b =? 0); [inversion H; subst; split; [exact HI'|discriminate]|].
+      eapply step_bytes_inv; [exact HI'|exact Hk'|exact H|exact He]. } clear E.
+  destruct (c_major (p_cur p) =? mBytes) eqn:E.
+  { getk E Hk. eapply step_bytes_inv; [exact HI|exact Hk|exact H|exact He]. } clear E.
+  destruct (c_major (p_cur p) =? mText + stStartX) eqn:E.
+  { getk E Hk. destruct (p_lcur p =? 0).
+    - destruct HI as (HS & HC & HL). destruct p as [cur stk lcur lstk buf err]. projs.
+      need_len HS lstk. repeat brk_in H; leaf H.
+    - assert (HI' : Inv L0 (clear_startx p)).
+      { destruct HI as (HS & HC & HL). destruct p as [cur stk lcur lstk buf err]. projs.
+        assert (Hk2 : kind_of (c_major cur - stStartX) = KSeq) by (rewrite E; reflexivity).
+        inv_fin. }
+      assert (Hk' : kd (p_cur (clear_startx p)) = KSeq).
+      { destruct p as [cur stk lcur lstk buf err]. projs. unfold kd. cbn [c_major]. rewrite E. reflexivity. }
+      destruct (zlen b =? 0); [inversion H; subst; split; [exact HI'|discriminate]|].
+      eapply step_text_inv; [exact HI'|exact Hk'|exact H|exact He]. } clear E.
+  destruct (c_major (p_cur p) =? mText) eqn:E.
+  { getk E Hk. eapply step_text_inv; [exact HI|exact Hk|exact H|exact He]. } clear E.
+  destruct (c_major (p_cur p) =? mArr + stStartX) eqn:E.
+  { getk E Hk. destruct (vis s (EArrStart (p_lcur p) BAny)) as [s1 e1].
+    destruct (isnil e1) eqn:E1; [|inversion H; subst; kill_nil].
+    destruct (st_pop_inv L0 p HI) as [HI' Hok]; [fold (kd (p_cur p)) in Hk; rewrite Hk; reflexivity
+      |fold (kd (p_cur p)) in Hk; rewrite Hk; discriminate|].
+    fold (kd (p_cur p)) in Hk. rewrite Hk in Hok.
+    eapply step_array_inv; [exact HI'| |exact H|exact He].
+    destruct (kd (p_cur (st_pop p))); try discriminate; reflexivity. } clear E.
+  destruct (c_major (p_cur p) =? mArr) eqn:E.
+  { getk E Hk. eapply step_array_inv; [exact HI|exact Hk|exact H|exact He]. } clear E.
+  destruct ((c_major (p_cur p) =? mArr + stStartX + stIndef) || (c_major (p_cur p) =? mArr + stIndef)) eqn:E.
+  { destruct (c_major (p_cur p) =? mArr + stIndef) eqn:E2.
+    - getk E2 Hk. change (isnil nilE) with true in H. cbn [negb] in H.
+      eapply (indef_tail_inv L0 p s b EArrEnd 11 99 step_value); [exact HI|left; exact Hk| |exact H|exact He].
+      intros p'' s'' r'' d'' e'' HK He''. eapply step_value_inv; [exact HI| |exact HK|exact He''].
+      fold (kd (p_cur p)) in Hk. rewrite Hk. reflexivity.
+    - rewrite orb_false_r in E. getk E Hk. fold (kd (p_cur p)) in Hk.
+      destruct (vis s (EArrStart (-1) BAny)) as [s1 e1].
+      destruct (isnil e1) eqn:E1; cbn [negb] in H; [|inversion H; subst; kill_nil].
+      destruct (st_pop_inv L0 p HI) as [HI' Hok]; [rewrite Hk; reflexivity|rewrite Hk; discriminate|].
+      rewrite Hk in Hok.
+      assert (Hk' : kd (p_cur (st_pop p)) = KArrI) by (destruct (kd (p_cur (st_pop p))); try discriminate; reflexivity).
+      eapply (indef_tail_inv L0 (st_pop p) s1 b EArrEnd 11 99 step_value); [exact HI'|left; exact Hk'| |exact H|exact He].
+      intros p'' s'' r'' d'' e'' HK He''. eapply step_value_inv; [exact HI'| |exact HK|exact He''].
+      rewrite Hk'. reflexivity. } clear E.
+  destruct (c_major (p_cur p) =? mMap + stStartX) eqn:E.
+  { getk E Hk. destruct (vis s (EObjStart (p_lcur p) BAny)) as [s1 e1].
+    destruct (isnil e1) eqn:E1; [|inversion H; subst; kill_nil].
+    destruct (st_pop_inv L0 p HI) as [HI' Hok]; [fold (kd (p_cur p)) in Hk; rewrite Hk; reflexivity
+      |fold (kd (p_cur p)) in Hk; rewrite Hk; discriminate|].
+    fold (kd (p_cur p)) in Hk. rewrite Hk in Hok.
+    eapply step_map_inv; [exact HI'| |exact H|exact He].
+    destruct (kd (p_cur (st_pop p))); try discriminate; reflexivity. } clear E.
+  destruct (c_major (p_cur p) =? mMap) eqn:E.
+  { getk E Hk. eapply step_map_inv; [exact HI|exact Hk|exact H|exact He]. } clear E.
+  destruct ((c_major (p_cur p) =? mMap + stStartX + stIndef) || (c_major (p_cur p) =? mMap + stIndef)) eqn:E.
+  { destruct (c_major (p_cur p) =? mMap + stIndef) eqn:E2.
+    - getk E2 Hk. change (isnil nilE) with true in H. cbn [negb] in H.
+      eapply (indef_tail_inv L0 p s b EObjEnd 12 100 init_map_key); [exact HI|right; exact Hk| |exact H|exact He].
+      intros p'' s'' r'' d'' e'' HK He''. eapply init_map_key_inv; [exact HI| |exact HK|exact He''].
+      fold (kd (p_cur p)) in Hk. rewrite Hk. reflexivity.
+    - rewrite orb_false_r in E. getk E Hk. fold (kd (p_cur p)) in Hk.
+      destruct (vis s (EObjStart (-1) BAny)) as [s1 e1].
+      destruct (isnil e1) eqn:E1; cbn [negb] in H; [|inversion H; subst; kill_nil].
+      destruct (st_pop_inv L0 p HI) as [HI' Hok]; [rewrite Hk; reflexivity|rewrite Hk; discriminate|].
+      rewrite Hk in Hok.
+      assert (Hk' : kd (p_cur (st_pop p)) = KMapI) by (destruct (kd (p_cur (st_pop p))); try discriminate; reflexivity).
+      eapply (indef_tail_inv L0 (st_pop p) s1 b EObjEnd 12 100 init_map_key); [exact HI'|right; exact Hk'| |exact H|exact He].
+      intros p'' s'' r'' d'' e'' HK He''. eapply init_map_key_inv; [exact HI'| |exact HK|exact He''].
+      rewrite Hk'. reflexivity. } clear E.
+  destruct (c_major (p_cur p) =? stKey + stStartX) eqn:E.
+  { getk E Hk. destruct (p_lcur p =? 0).
+    - destruct HI as (HS & HC & HL). destruct p as [cur stk lcur lstk buf err]. projs.
+      need_len HS lstk. repeat brk_in H; leaf H.
+    - assert (HI' : Inv L0 (clear_startx p)).
+      { destruct HI as (HS & HC & HL). destruct p as [cur stk lcur lstk buf err]. projs.
+        assert (Hk2 : kind_of (c_major cur - stStartX) = KKey) by (rewrite E; reflexivity).
+        inv_fin. }
+      assert (Hk' : kd (p_cur (clear_startx p)) = KKey).
+      { destruct p as [cur stk lcur lstk buf err]. projs. unfold kd. cbn [c_major]. rewrite E. reflexivity. }
+      eapply step_key_inv; [exact HI'|exact Hk'|exact H|exact He]. } clear E.
+  destruct (c_major (p_cur p) =? stKey) eqn:E.
+  { getk E Hk. eapply step_key_inv; [exact HI|exact Hk|exact H|exact He]. } clear E.
+  destruct (c_major (p_cur p) =? stElem) eqn:E.
+  { getk E Hk. fold (kd (p_cur p)) in Hk.
+    destruct (st_pop_inv L0 p HI) as [HI' Hok]; [rewrite Hk; reflexivity|rewrite Hk; discriminate|].
+    rewrite Hk in Hok.
+    eapply step_value_inv; [exact HI'| |exact H|exact He].
+    destruct (kd (p_cur (st_pop p))); try discriminate; reflexivity. } clear E.
+  inversion H; subst; discriminate.
+Qed.
+
+Lemma feed_until_inv : forall L0 fuel p s b p' s' r d e,
+  Inv L0 p -> feed_until fuel p s b = Ok (SR p' s' r d e) -> e = nilE -> Post L0 p' d.
+Proof.
+  induction fuel as [|f IH]; intros p s b p' s' r d e HI H He; [discriminate|].
+  cbn [feed_until] in H.
+  destruct (exec_step p s b) as [p1 s1 rest done err|w] eqn:Hx; [|discriminate].
+  destruct (done || negb (isnil err)) eqn:Ed.
+  - inversion H; subst. eapply exec_step_inv; eauto.
+  - apply orb_false_iff in Ed. destruct Ed as [-> Ee]. apply negb_false_iff in Ee.
+    apply isnil_true in Ee. subst err.
+    destruct (exec_step_inv _ _ _ _ _ _ _ _ _ HI Hx eq_refl) as [HI1 _].
+    destruct (negb (zlen rest =? 0) || (Z.land (c_major (p_cur p1)) (stStartX + stIndef) =? stStartX)).
+    + eapply IH; eauto.
+    + inversion H; subst. split; [exact HI1|discriminate].
+Qed.
+
+Lemma feed_inv : forall L0 fuel p s b p' s' e,
+  Inv L0 p -> feed fuel p s b = Ok (p', s', e) -> e = nilE -> Inv L0 p'.
+Proof.
+  induction fuel as [|f IH]; intros p s b p' s' e HI H He; [discriminate|].
+  cbn [feed] in H. destruct (zlen b >? 0); [|inversion H; subst; exact HI].
+  destruct (feed_until (feed_fuel b) p s b) as [[p1 s1 rest d err|w]| | |] eqn:Hf; try discriminate.
+  destruct (isnil err) eqn:Ee.
+  - apply isnil_true in Ee. subst err.
+    destruct (feed_until_inv _ _ _ _ _ _ _ _ _ _ HI Hf eq_refl) as [HI1 _].
+    eapply IH; eauto.
+  - inversion H; subst. kill_nil.
+Qed.
+
+Lemma Inv_set_err : forall L0 p e, Inv L0 p -> Inv L0 (set_err p e).
+Proof. intros L0 p e H. exact H. Qed.
+
+Lemma p_write_inv : forall L0 p s b p' s' e,
+  Inv L0 p -> p_write p s b = Ok (p', s', e) -> e = nilE -> Inv L0 p'.
+Proof.
+  intros L0 p s b p' s' e HI H He. unfold p_write in H.
+  destruct (feed (2 * length b + 2) p s b) as [[[p1 s1] err]| | |] eqn:Hf; try discriminate.
+  inversion H; subst. apply Inv_set_err. eapply feed_inv; eauto.
+Qed.
+
+(* what a clean, between-values parser state is (everything except p_err) *)
+Definition clean (L0 : Z) (p : cparser) : Prop :=
+  p_cur p = mkst stValue stStart /\ p_stack p = [] /\ p_lcur p = L0 /\ p_lstack p = [] /\ p_buf p = [].
+
+Lemma clean_Inv : forall L0 p, clean L0 p -> Inv L0 p.
+Proof.
+  intros L0 p (H1 & H2 & H3 & H4 & H5). unfold Inv, cfg. rewrite H1, H2, H3, H4.
+  split; [reflexivity|]. split; reflexivity.
+Qed.
+
+Lemma zlen_nonneg' : forall A (l : list A), 0 <= zlen l.
+Proof. intros. unfold zlen. lia. Qed.
+
+Lemma zlen_0_nil : forall A (l : list A), zlen l = 0 -> l = [].
+Proof. intros A [|x l] H; [reflexivity|]. unfold zlen in H. cbn [length] in H. lia. Qed.
+
+(* finalize succeeds only in a clean state *)
+Lemma finalize_clean : forall L0 p, Inv L0 p -> finalize p = nilE -> clean L0 p.
+Proof.
+  intros L0 p (HS & HC & HL) Hf. unfold finalize in Hf.
+  destruct ((zlen (p_stack p) >? 0) || negb (c_major (p_cur p) =? stValue) || (zlen (p_buf p) >? 0)) eqn:E;
+    [discriminate|].
+  apply orb_false_iff in E. destruct E as [E E3]. apply orb_false_iff in E. destruct E as [E1 E2].
+  apply negb_false_iff in E2. apply Z.eqb_eq in E2.
+  assert (Hst : p_stack p = []) by (apply zlen_0_nil; pose proof (zlen_nonneg' _ (p_stack p)); lia).
+  assert (Hbuf : p_buf p = []) by (apply zlen_0_nil; pose proof (zlen_nonneg' _ (p_buf p)); lia).
+  unfold cfg in *. rewrite Hst in *. apply (proj1 (shape_1 _)) in HS.
+  assert (Hl : p_lstack p = []).
+  { apply zlen_0_nil. rewrite HC, HS. reflexivity. }
+  rewrite Hl in HL. cbn [last] in HL.
+  unfold clean. auto.
+Qed.
+
+(* ---------- C17 ---------- *)
+Lemma clean0 : clean 0 cparser0.
+Proof. unfold clean, cparser0. cbn. auto. Qed.
+
+(* after a complete top-level value (done = true, nil error) both stacks are
+   empty again and the parser waits for a value; holds from any state reachable
+   from a clean one without error *)
+Theorem C17_cbor_value_done : forall L0 fuel p s b p' s' r,
+  Inv L0 p -> feed_until fuel p s b = Ok (SR p' s' r true nilE) ->
+  p_cur p' = mkst stValue stStart /\ p_stack p' = [] /\ p_lstack p' = [] /\ p_lcur p' = L0 /\ Inv L0 p'.
+Proof.
+  intros L0 fuel p s b p' s' r HI H.
+  destruct (feed_until_inv _ _ _ _ _ _ _ _ _ _ HI H eq_refl) as [HI' Hd].
+  specialize (Hd eq_refl). destruct HI' as (HS & HC & HL).
+  destruct (shape_bottom _ _ HS Hd) as [Hst Hcur].
+  unfold cfg in HC. rewrite Hst, Hcur in HC.
+  assert (Hl : p_lstack p' = []) by (apply zlen_0_nil; rewrite HC; reflexivity).
+  rewrite Hl in HL. cbn [last] in HL.
+  split; [exact Hcur|]. split; [exact Hst|]. split; [exact Hl|]. split; [exact HL|].
+  unfold Inv, cfg. rewrite Hst, Hcur, Hl. split; [reflexivity|]. split; [reflexivity|exact HL].
+Qed.
+
+Theorem C17_cbor_parse_clean : forall L0 p s b p' s',
+  clean L0 p -> p_parse p s b = Ok (p', s', nilE) -> clean L0 p'.
+Proof.
+  intros L0 p s b p' s' Hc H. unfold p_parse in H.
+  destruct (feed (2 * length b + 2) p s b) as [[[p1 s1] err]| | |] eqn:Hf; try discriminate.
+  destruct (isnil err) eqn:Ee.
+  - apply isnil_true in Ee. subst err. inversion H; subst.
+    apply finalize_clean; [|assumption]. eapply feed_inv; [apply clean_Inv; exact Hc|exact Hf|reflexivity].
+  - inversion H; subst. kill_nil.
+Qed.
+
+Theorem C17_cbor_writes_clean : forall L0 chunks p s p' s',
+  clean L0 p -> p_writes p s chunks = Ok (p', s', nilE) -> clean L0 p'.
+Proof.
+  intros L0 chunks p s p' s' Hc H.
+  assert (G : forall chunks p s, Inv L0 p -> p_writes p s chunks = Ok (p', s', nilE) -> clean L0 p').
+  { clear. induction chunks as [|c r IH]; intros p s HI H; cbn [p_writes] in H.
+    - inversion H; subst. apply finalize_clean; assumption.
+    - destruct (p_write p s c) as [[[p1 s1] err]| | |] eqn:Hw; try discriminate.
+      destruct (isnil err) eqn:Ee.
+      + apply isnil_true in Ee. subst err. eapply IH; [|exact H]. eapply p_write_inv; eauto.
+      + inversion H; subst. kill_nil. }
+  eapply G; [apply clean_Inv; exact Hc|exact H].
+Qed.
+
+(* the statement asked for: Parse on a fresh parser that returns nil leaves the
+   parser in its initial state (all fields but p_err, which Parse never writes) *)
+Theorem C17_cbor_parse_reset : forall s b p' s',
+  p_parse cparser0 s b = Ok (p', s', nilE) ->
+  p_cur p' = mkst stValue stStart /\ p_stack p' = [] /\ p_buf p' = [] /\
+  p_lstack p' = [] /\ p_lcur p' = 0.
+Proof.
+  intros s b p' s' H. destruct (C17_cbor_parse_clean 0 _ _ _ _ _ clean0 H) as (H1 & H2 & H3 & H4 & H5).
+  auto.
+Qed.
+
+Theorem C17_cbor_writes_reset : forall s chunks p' s',
+  p_writes cparser0 s chunks = Ok (p', s', nilE) ->
+  p_cur p' = mkst stValue stStart /\ p_stack p' = [] /\ p_buf p' = [] /\
+  p_lstack p' = [] /\ p_lcur p' = 0.
+Proof.
+  intros s chunks p' s' H. destruct (C17_cbor_writes_clean 0 _ _ _ _ _ clean0 H) as (H1 & H2 & H3 & H4 & H5).
+  auto.
+Qed.
+
+Print Assumptions C17_cbor_value_done.
+Print Assumptions C17_cbor_parse_clean.
+Print Assumptions C17_cbor_writes_clean.
+Print Assumptions C17_cbor_parse_reset.
+Print Assumptions C17_cbor_writes_reset.
+
+(* ====================================================================== *)
+(* Part 3: the pull decoder                                               *)
+(* ====================================================================== *)
+
+Definition odn (r : res (cdecoder * sink * Z)) : out cdecoder :=
+  match r with Ok (d, s, e) => Some (d, s, e) | _ => None end.
+
+(* the part of Next after the buffer has been (re)filled *)
+Definition dec_body (f : nat) (d1 : cdecoder) (s : sink) : res (cdecoder * sink * Z) :=
+  match feed_until (feed_fuel (d_buf d1)) (d_p d1) s (d_buf d1) with
+  | Ok (SR p1 s1 rest done err) =>
+      let d2 := {| d_p := p1; d_buf := rest; d_script := d_script d1; d_bytesdec := d_bytesdec d1 |} in
+      if negb (isnil err) then Ok ({| d_p := p1; d_buf := d_buf d1; d_script := d_script d1; d_bytesdec := d_bytesdec d1 |}, s1, err)
+      else if done then Ok (d2, s1, nilE)
+      else dec_next f d2 s1
+  | Ok (Crash w) => Panic w
+  | Err e => Err e | Panic w => Panic w | OutOfFuel => OutOfFuel
+  end.
+
+(* refilling the buffer: either Next returns at once, or it goes on with d1 *)
+Definition dec_fill (d : cdecoder) : cdecoder + Z :=
+  if zlen (d_buf d) =? 0 then
+    if d_bytesdec d then inr (finalize (d_p d))
+    else
+      match d_script d with
+      | [] => inr (finalize (d_p d))
+      | (data, err) :: rest =>
+          let d1 := {| d_p := d_p d; d_buf := data; d_script := rest; d_bytesdec := false |} in
+          if (zlen data =? 0) && negb (err =? 0) then
+            inr (if err =? eEOF then finalize (d_p d) else err)
+          else inl d1
+      end
+  else inl d.
+
+Lemma dec_next_S : forall f d s,
+  dec_next (S f) d s =
+  match dec_fill d with
+  | inr e => Ok (d, s, if isnil e then eEOF else e)
+  | inl d1 => dec_body f d1 s
+  end.
+Proof. intros. reflexivity. Qed.
+
+Lemma dec_next_rep : forall fuel d, Rep (fun s => odn (dec_next fuel d s)).
+Proof.
+  induction fuel as [|f IH]; intros d.
+  - apply Rep_abort.
+  - eapply Rep_ext; [intros s; rewrite dec_next_S; reflexivity|].
+    destruct (dec_fill d) as [d1|e]; [|apply Rep_ret].
+    unfold dec_body.
+    apply (Rep_bind _ _ (fun s => ores (feed_until (feed_fuel (d_buf d1)) (d_p d1) s (d_buf d1)))
+             (fun a _ => {| d_p := fst (fst a); d_buf := d_buf d1; d_script := d_script d1; d_bytesdec := d_bytesdec d1 |})
+             (fun a s => let '(p1, rest, done) := a in
+                let d2 := {| d_p := p1; d_buf := rest; d_script := d_script d1; d_bytesdec := d_bytesdec d1 |} in
+                if done then Some (d2, s, nilE) else odn (dec_next f d2 s))).
+    + apply feed_until_rep.
+    + intros [[p1 rest] done]. cbv zeta. destruct done; [apply Rep_ret|apply IH].
+    + intros s. destruct (feed_until (feed_fuel (d_buf d1)) (d_p d1) s (d_buf d1)) as [[p1 s1 rest done err|w]| | |];
+        try reflexivity.
+      cbn [ores osr fst]. destruct (isnil err); cbn [negb]; [|reflexivity]. destruct done; reflexivity.
+Qed.
+
+(* C16 for Next: a failing visitor stops the decoder at once *)
+Lemma rep_prompt_gen : forall A (f : sink -> out A), Rep f -> forall s k a s' e,
+  s_fail s = Some k -> (s_n s <= k)%nat -> f s = Some (a, s', e) ->
+  exists l, s' = s_add s l /\ (s_n s' <= S k)%nat /\ (s_n s' = S k -> e = eVisitor).
+Proof.
+  intros A f [pr Hpr] s k a s' e Hs Hn H. rewrite Hpr in H.
+  pose proof (run_fail A pr s k Hs Hn) as R.
+  destruct (Nat.leb (length (ptrace pr)) (k - s_n s)) eqn:L.
+  - apply Nat.leb_le in L. rewrite R in H. unfold final_out in H.
+    destruct (pfinal pr) as [[a' e']|]; [|discriminate]. inversion H; subst.
+    exists (ptrace pr). split; [reflexivity|]. cbn [s_add s_n]. split; lia.
+  - apply Nat.leb_gt in L. destruct R as [af R].
+    remember (firstn (S (k - s_n s)) (ptrace pr)) as t eqn:Ht.
+    rewrite R in H. inversion H; subst a s' e.
+    exists t. split; [reflexivity|]. cbn [s_add s_n].
+    assert (length t = S (k - s_n s)) by (subst t; rewrite firstn_length; lia).
+    split; [lia|reflexivity].
+Qed.
+
+Theorem C16_cbor_next_prompt : forall fuel d s k d' s' e,
+  s_fail s = Some k -> (s_n s <= k)%nat ->
+  dec_next fuel d s = Ok (d', s', e) ->
+  exists l, s' = s_add s l /\ (s_n s' <= S k)%nat /\ (s_n s' = S k -> e = eVisitor).
+Proof.
+  intros fuel d s k d' s' e Hs Hn H.
+  apply (rep_prompt_gen _ _ (dec_next_rep fuel d) s k d' s' e Hs Hn). rewrite H. reflexivity.
+Qed.
+Print Assumptions C16_cbor_next_prompt.
+
+(* every successful Next ends between two values: both stacks are empty *)
+Theorem C18_cbor_next_between_partial : forall L0 fuel d s d' s',
+  Inv L0 (d_p d) -> dec_next fuel d s = Ok (d', s', nilE) ->
+  p_cur (d_p d') = mkst stValue stStart /\ p_stack (d_p d') = [] /\ p_lstack (d_p d') = [] /\
+  p_lcur (d_p d') = L0 /\ Inv L0 (d_p d').
+Proof.
+  induction fuel as [|f IH]; intros d s d' s' HI H; [discriminate|].
+  rewrite dec_next_S in H.
+  assert (Hfill : forall d1, dec_fill d = inl d1 -> d_p d1 = d_p d).
+  { intros d1 E. unfold dec_fill in E.
+    destruct (zlen (d_buf d) =? 0); [|inversion E; reflexivity].
+    destruct (d_bytesdec d); [discriminate|].
+    destruct (d_script d) as [|[data err] rest]; [discriminate|].
+    cbv zeta in E. destruct ((zlen data =? 0) && negb (err =? 0)); [discriminate|].
+    inversion E. reflexivity. }
+  destruct (dec_fill d) as [d1|e] eqn:Ef.
+  - specialize (Hfill d1 eq_refl). unfold dec_body in H.
+    destruct (feed_until (feed_fuel (d_buf d1)) (d_p d1) s (d_buf d1)) as [[p1 s1 rest done err|w]| | |] eqn:Hf;
+      try discriminate.
+    destruct (isnil err) eqn:Ee; cbn [negb] in H; [|inversion H; subst; kill_nil].
+    apply isnil_true in Ee. subst err. rewrite Hfill in Hf.
+    destruct done.
+    + inversion H; subst. cbn [d_p]. eapply C17_cbor_value_done; eauto.
+    + apply IH in H; [exact H|]. cbn [d_p].
+      exact (proj1 (feed_until_inv _ _ _ _ _ _ _ _ _ _ HI Hf eq_refl)).
+  - injection H as _ _ He. destruct (isnil e) eqn:Ee; [discriminate He|]. subst e. kill_nil.
+Qed.
+Print Assumptions C18_cbor_next_between_partial.
